@@ -251,9 +251,12 @@ def evaluate_tail(case, chk):
         hdr = case.get("in_header_lines", 0)
         for d in r.deliveries:
             delivered = stdin[:d["delivered"]]
-            nin = max(0, delivered.count(b"\n") - hdr)
+            passes = case.get("passes")
+            nlines = max(0, delivered.count(b"\n") - hdr)
+            nin = nlines if not passes else sum(1 for x in passes[:nlines] if x)
             # JSON-lines input: a record is complete at its closing brace, before the line terminator arrives
-            nin_max = delivered.count(b"}") if case.get("ifmt") == "jsonl" else nin
+            nbr = delivered.count(b"}")
+            nin_max = (nbr if not passes else sum(1 for x in passes[:nbr] if x)) if case.get("ifmt") == "jsonl" else nin
             visible = r.stdout[:d["stdout"]]
             nout = count_out_records(case["ofmt"], visible)
             if not (nin <= nout <= max(nin, nin_max)):
